@@ -265,6 +265,29 @@ var validColumnTypes = map[string]bool{
 // columnTypePattern matches valid column type definitions
 var columnTypePattern = regexp.MustCompile(`^[A-Za-z][A-Za-z0-9_ (),.]*$`)
 
+// columnTypeEscapesDefinition reports whether a column type text would end its
+// own column definition: a comma outside parentheses starts another column
+// ("TEXT (1), evil INTEGER"), and an unbalanced ")" closes the column list.
+func columnTypeEscapesDefinition(colType string) bool {
+	depth := 0
+	for _, r := range colType {
+		switch r {
+		case '(':
+			depth++
+		case ')':
+			depth--
+			if depth < 0 {
+				return true
+			}
+		case ',':
+			if depth == 0 {
+				return true
+			}
+		}
+	}
+	return depth != 0
+}
+
 // sanitizeColumnType validates a column type definition
 func sanitizeColumnType(colType string) (string, error) {
 	if colType == "" {
@@ -275,7 +298,7 @@ func sanitizeColumnType(colType string) (string, error) {
 	upperType := strings.ToUpper(strings.TrimSpace(colType))
 
 	// Check against pattern to prevent injection
-	if !columnTypePattern.MatchString(colType) {
+	if !columnTypePattern.MatchString(colType) || columnTypeEscapesDefinition(colType) {
 		return "", fmt.Errorf("invalid column type: %s", colType)
 	}
 
